@@ -7,7 +7,9 @@
 (* either side, same text under different kinds (1 vs "1"), several        *)
 (* partners, duplicated partner rows, partner without nucleotides (a CSV   *)
 (* row), partner overriding an attribute of the main record, sequences and *)
-(* qualities of equal / different lengths.                                 *)
+(* qualities of equal / different lengths, a partner whose key is the      *)
+(* empty text or the NA marker (must NOT match a main record that lacks    *)
+(* the key).                                                               *)
 (* TLC checks the theorems below in every state and exports the case with  *)
 (* the group the definition assigns to the main record.                    *)
 (***************************************************************************)
@@ -34,7 +36,8 @@ PartPool == <<
   R("p9", "gg",     "",       ("a" :> "s:2") @@ ("b" :> "s:u")),
   R("p8", "ggttaa", "KKKKKK", ("a" :> "s:2") @@ ("b" :> "s:v") @@ ("y" :> "s:new")),
   R("m2", "tt",     "LL",     ("y" :> "s:other")),
-  R("p7", "cccc",   "",       ("b" :> "s:1") @@ ("x" :> "s:theirs")) >>
+  R("p7", "cccc",   "",       ("b" :> "s:1") @@ ("x" :> "s:theirs")),
+  R("p6", "",       "",       ("a" :> "s:") @@ ("b" :> "s:NA") @@ ("y" :> "s:blank")) >>   \* an empty cell, an NA marker
 
 ByTable == [dflt |-> <<>>,
             a    |-> << <<"a", "a">> >>,
